@@ -13,13 +13,17 @@ import (
 // Application-layer (and variable-shape) codec harness: deep symbolic values with per-variant shapes.
 
 type avariant struct {
-	Name   string
-	Size   int              // expected encoded length and Size()
-	NonNil []string         // pointer paths that are non-nil in this variant (others nil)
-	Lens   map[string]int   // slice lengths
-	Fix    map[string]int64 // leaves fixed to a constant (gate fields)
-	Where  map[string][2]int64 // leaf restricted to [lo,hi] (gate regions)
-	NoStream bool           // payload swallows the rest of the buffer (cannot be followed by another command)
+	Name     string
+	Size     int                 // expected encoded length and Size()
+	NonNil   []string            // pointer paths that are non-nil in this variant (others nil)
+	Lens     map[string]int      // slice lengths
+	Fix      map[string]int64    // leaves fixed to a constant (gate fields)
+	Where    map[string][2]int64 // leaf restricted to [lo,hi] (gate regions)
+	NoStream bool                // payload swallows the rest of the buffer (cannot be followed by another command)
+	Dyn      map[string]string   // interface-typed path -> dynamic type "pkgrel:Type" (value is a *Type)
+	Equal    [][2]string         // pairs of boolean leaves constrained to be equal (wire aliases)
+	AnyTrue  []string            // [N]bool arrays constrained to contain at least one true element
+	AllFalse []string            // [N]bool arrays fixed to all-false
 }
 
 type aspec struct {
@@ -85,6 +89,21 @@ func symDeep(in *absint.Interp, path string, T types.Type, v avariant, sp aspec,
 			}
 		}
 		return absint.NilVal{}
+	case *types.Interface:
+		dn, ok := v.Dyn[path]
+		if !ok {
+			return &absint.Iface{Dyn: absint.NilVal{}}
+		}
+		rel, name := "", dn
+		if i := strings.Index(dn, ":"); i >= 0 {
+			rel, name = dn[:i], dn[i+1:]
+		}
+		DT := in.NamedType(rel, name)
+		if DT == nil {
+			panic(absint.Unsupported{Why: "dynamic type " + dn + " not found"})
+		}
+		ptr := &absint.Ptr{To: &absint.Cell{V: symDeep(in, path+".*", DT, v, sp, dom)}, T: DT}
+		return &absint.Iface{Dyn: ptr, DynT: types.NewPointer(DT)}
 	case *types.Slice:
 		n := v.Lens[path]
 		bk := &absint.Backing{}
@@ -204,6 +223,42 @@ func deepCompare(in *absint.Interp, path string, got, want absint.Value, cond ab
 	}
 }
 
+// deepLeaf follows a symDeep path ("A.B[2].*.C") inside a value.
+func deepLeaf(v absint.Value, path string) absint.Value {
+	cur := v
+	for _, part := range strings.Split(path, ".") {
+		if part == "" {
+			continue
+		}
+		if part == "*" {
+			switch x := cur.(type) {
+			case *absint.Ptr:
+				cur = x.To.V
+			case *absint.Iface:
+				cur = x.Dyn.(*absint.Ptr).To.V
+			}
+			continue
+		}
+		name, idx := part, -1
+		if i := strings.Index(part, "["); i >= 0 {
+			name = part[:i]
+			fmt.Sscanf(part[i:], "[%d]", &idx)
+		}
+		if name != "" {
+			cur = cur.(*absint.Struct).F[name].V
+		}
+		if idx >= 0 {
+			switch x := cur.(type) {
+			case *absint.Array:
+				cur = x.E[idx].V
+			case *absint.Slice:
+				cur = x.At(idx).V
+			}
+		}
+	}
+	return cur
+}
+
 func hasMethod(T types.Type, name string) bool {
 	obj, _, _ := types.LookupFieldOrMethod(types.NewPointer(T), true, nil, name)
 	_, ok := obj.(*types.Func)
@@ -228,6 +283,25 @@ func runApp(c *Ctx, sp aspec) *codecResult {
 		var enc []absint.Value
 		err := in.Try(func() {
 			val = symDeep(in, "", T, v, sp, &dom)
+			for _, eq := range v.Equal {
+				a := asBits(deepLeaf(val, eq[0]), eq[0]).Bits()[0]
+				b := asBits(deepLeaf(val, eq[1]), eq[1]).Bits()[0]
+				dom = d.M.And(dom, d.M.Eqv(a, b))
+			}
+			for _, ap := range v.AnyTrue {
+				arr := deepLeaf(val, ap).(*absint.Array)
+				any := absint.False
+				for _, c := range arr.E {
+					any = d.M.Or(any, asBits(c.V, ap).Bits()[0])
+				}
+				dom = d.M.And(dom, any)
+			}
+			for _, ap := range v.AllFalse {
+				arr := deepLeaf(val, ap).(*absint.Array)
+				for _, c := range arr.E {
+					c.V = d.Bool(absint.False)
+				}
+			}
 			in.SetLive(dom)
 			enc = in.CallMethod(&absint.Cell{V: absint.Copy(val)}, T, "MarshalBinary")
 		})
